@@ -61,9 +61,13 @@ def plan_st(draw, tier):
     ops_ = h.ops
     if fam == "F3":    # general floats of moderate size, drawn after the fact to keep History simple
         for op in ops_:
-            if op[0] in ("fit", "partial_fit"):
+            if op[0] in ("fit", "partial_fit", "fit_tiled", "partial_fit_tiled"):
                 op[2] = draw(st.lists(st.floats(-1e3, 1e3, allow_nan=False, width=64), min_size=len(op[1]),
                                       max_size=len(op[1])))
+    if draw(st.integers(0, 9)) == 0:
+        # one training call with thousands of rows per arm (the batch tiled): paths that only open up for large calls
+        i = draw(st.sampled_from([k for k, op in enumerate(ops_) if op[0] in ("fit", "partial_fit")]))
+        ops_[i] = [ops_[i][0] + "_tiled", ops_[i][1], ops_[i][2], ops_[i][3], draw(st.sampled_from([600, 1500, 4200]))]
     m = draw(st.integers(1, 6))
     q = draw(gen.contexts_st(m, h.d, h.grid))
     if scale and draw(st.booleans()):
@@ -72,7 +76,7 @@ def plan_st(draw, tier):
         col = draw(st.integers(0, h.d - 1))
         f = draw(st.sampled_from([1e-4, 1e-8, 1e-4]))
         for op in ops_:
-            if op[0] in ("fit", "partial_fit"):
+            if op[0] in ("fit", "partial_fit", "fit_tiled", "partial_fit_tiled"):
                 for row in op[3]:
                     row[col] = row[col] * f
         for row in q:
@@ -83,7 +87,7 @@ def plan_st(draw, tier):
         col = draw(st.integers(0, h.d - 1))
         f = draw(st.sampled_from([1e3, 1e4]))
         for op in ops_:
-            if op[0] in ("fit", "partial_fit"):
+            if op[0] in ("fit", "partial_fit", "fit_tiled", "partial_fit_tiled"):
                 for row in op[3]:
                     row[col] = row[col] * f
         for row in q:
@@ -100,13 +104,16 @@ def arm_rows(plan):
     rows = {}
     arms = list(plan["config"]["arms"])
     for op in plan["ops"]:
-        if op[0] == "fit":
+        times = op[4] if op[0].endswith("_tiled") else 1
+        kind = op[0][:-6] if op[0].endswith("_tiled") else op[0]
+        if kind == "fit":
             rows = {a: ([], []) for a in arms}
-        if op[0] in ("fit", "partial_fit"):
-            for d, r, x in zip(op[1], op[2], op[3]):
-                if d in rows:
-                    rows[d][0].append(x)
-                    rows[d][1].append(r)
+        if kind in ("fit", "partial_fit"):
+            for _ in range(times):
+                for d, r, x in zip(op[1], op[2], op[3]):
+                    if d in rows:
+                        rows[d][0].append(x)
+                        rows[d][1].append(r)
         elif op[0] == "add_arm":
             arms.append(op[1])
             rows[op[1]] = ([], [])
@@ -137,7 +144,7 @@ def evaluate(plan, ctx):
     if len(got_rows) != m:
         raise Violation("shape", "%d query rows gave %d results" % (m, len(got_rows)))
     ev = ["lp=" + name, "scale=%s" % scale, "d=%d" % d]
-    ymax = max([1.0] + [abs(float(r)) for op in plan["ops"] if op[0] in ("fit", "partial_fit") for r in op[2]])
+    ymax = max([1.0] + [abs(float(r)) for op in plan["ops"] if op[0].startswith(("fit", "partial_fit")) for r in op[2]])
     zero_rows = False
     for j, a in enumerate(arms):
         X, y = rows[a]
@@ -205,7 +212,9 @@ def evaluate(plan, ctx):
                     ev.append("lints_replay_differs")
             except Exception:
                 ev.append("lints_replay_unavailable")
-    n_pf = sum(1 for op in plan["ops"] if op[0] == "partial_fit")
+    n_pf = sum(1 for op in plan["ops"] if op[0].startswith("partial_fit"))
+    if any(op[0].endswith("_tiled") for op in plan["ops"]):
+        ev.append("tiled_training_call")
     nt = lam != 1 or (d == 1 and m > 1) or n_pf >= 1 or zero_rows
     if zero_rows:
         ev.append("arm_with_zero_rows")
